@@ -34,7 +34,7 @@ CLAIMED = {
  "C13": ("§4 C13", "cache.Create/Write/Close then one fault then cache.Open are executed over an in-memory file system with symbolic body bytes, symbolic root/data digests and a symbolic fault (flip of any byte by any non-zero mask, any truncation, appended bytes, other digests, another entry's content, every crash point of the write protocol): Open succeeds only if the file is bytewise the finished entry opened with its own digests, and then reads back the written bytes.",
          "stubs: in-memory FS, flate = self-delimiting buffered framing, uninterpreted 2-byte digest with collision-freeness assumed between the compared inputs and a non-zero root digest; real OS failure modes are outside; counterexamples replay on real files with real flate and SHA-1"),
  "C14": ("§4 C14", "protocol layer: the real `gts delete` (ioDelegate, TryCache, cache.File, writer) plus main()'s epilogue is run in histories of three invocations over one cache directory with symbolic inputs (same/different), different locators and failing runs; every invocation's stdout bytes and exit status are asserted equal to the same invocation under --no-cache. Crash histories: a run that panics mid-stream (deferred calls run, main()'s epilogue does not) followed by identical runs. Key completeness by self-composition: extract, delete, insert, query, search, select, sort, join, rotate, split, infix, pick, summary, define and the option-less clear/reverse/complement/repair are each run twice with independently chosen option vectors; equal cache key (entry name) must imply equal output. Secondary inputs: insert/search with a literal and with a file of symbolic bytes through the real scanner, insert/infix with two files that hold the same residues as different records.",
-         "stubs: scanner queue, in-memory FS, flate framing model, uninterpreted collision-free digests, json.Marshal = injective structural encoding (the real encodePayload runs); natively (replay) real files, real SHA-1/flate/json and XDG_CACHE_HOME; delete/insert/search/infix are driven at the protocol layer and eighteen commands for key completeness - annotate, the -F/-o options beyond delete -o, and outputs beyond about 1 KB (seed C14-6 is a documented miss), are outside the bound"),
+         "stubs: scanner queue, in-memory FS, flate framing model, uninterpreted collision-free digests, json.Marshal = injective structural encoding (the real encodePayload runs); natively (replay) real files, real SHA-1/flate/json and XDG_CACHE_HOME; delete/insert/search/infix are driven at the protocol layer and eighteen commands for key completeness, annotate with a changing feature-table file - the -F/-o options beyond delete -o, and outputs beyond about 1 KB (seed C14-6 is a documented miss), are outside the bound"),
  "C15": ("§4 C15", "the real command functions deleteFunc/insertFunc/infixFunc/rotateFunc/splitFunc/extractFunc (flag parsing, locator, Minimize/flip/sort, the library edits) are executed on a record with symbolic residues and 2-3 gene features whose coordinates and strands are symbolic (so sites overlap, nest, coincide, come unsorted): delete removes exactly the union, insert places one guest copy per site at its 5' position in input coordinates, rotate brings the first site to 0, split pieces concatenate to the (re-origined) input, extract emits each distinct shorter region once in order / with -v the maximal unlocated stretches; every emitted record is formatted by the real GenBank writer.",
          "stubs: scanner = queue of harness-built records, writer = capturing sink, IsTerminal=false, --no-cache; natively (witness validation and counterexample replay) the real reader, writer and command run on real files; record length 4-8; -F conversions not covered"),
  "C16": ("§4 C16", "fromOriginLength(toOriginLength(n))=n, strict monotonicity and an independently written layout formula are proved for every n in [0,4e18] in one query each; NewOrigin/Bytes layout is executed on symbolic residues for bounded lengths.",
